@@ -32,6 +32,14 @@ class Deps:
     def of(self, e: ast.AST, at: int) -> FrozenSet[Term]:
         return self.of_term(self.fa.sym.term(e, at))
 
+    def of_var(self, name: str, at: int) -> FrozenSet[Term]:
+        """Dependences of the local ``name`` as it is when node ``at`` executes (reaching definitions + everything stored
+        into / appended to the object)."""
+        defs = frozenset(self.fa.cfg.reaching().get(at, {}).get(name, ()))
+        if not defs:
+            return frozenset()
+        return self.of_term(("var", name, defs))
+
     def of_term(self, t: Term) -> FrozenSet[Term]:
         out: Set[Term] = set()
         for lf in leaves(t):
@@ -76,6 +84,11 @@ class Deps:
                         hit = True
                         for a in list(c.args) + [k.value for k in c.keywords]:
                             out |= self.of(a, n)
+                # in-place operations that take the container as an argument: rng.shuffle(name)
+                if isinstance(f, ast.Attribute) and f.attr in ("shuffle",) and any(
+                        isinstance(a, ast.Name) and a.id == name for a in c.args):
+                    hit = True
+                    out |= self.of(f.value, n)
             if hit and self.control:
                 for t_, lab in cfg.control_predicates(n):
                     tn = cfg.nodes[t_]
